@@ -215,7 +215,7 @@ func (m *Machine) fmtIntrinsic0(s *State, f *Frame, x *ssa.Call, name string, ar
 	case "fmt.Sscanf":
 		format, ok := m.toGo(s, args[1], types.Typ[types.String])
 		va := m.variadic(s, args[2])
-		if !ok || (format.(string) != "%d" && format.(string) != "%020d") || len(va) != 1 {
+		if !ok || len(va) != 1 {
 			s.fail("unsupported", "Sscanf format")
 			return true
 		}
@@ -225,10 +225,14 @@ func (m *Machine) fmtIntrinsic0(s *State, f *Frame, x *ssa.Call, name string, ar
 			return true
 		}
 		et := va[0].typ.(*types.Pointer).Elem()
-		w, _, _ := intWidth(et)
+		w, signed, isInt := intWidth(et)
+		if !isInt || w == 0 {
+			s.fail("unsupported", "Sscanf destination type")
+			return true
+		}
 		str := args[0].(StrV)
 		errT := x.Type().(*types.Tuple).At(1).Type()
-		if ns, ok := str.box.(NumStr); ok {
+		if ns, ok := str.box.(NumStr); ok && format.(string) == "%d" {
 			t := ns.t
 			if w < 64 {
 				t = m.ctx.Extract(w-1, 0, t)
@@ -245,7 +249,7 @@ func (m *Machine) fmtIntrinsic0(s *State, f *Frame, x *ssa.Call, name string, ar
 		var n int64
 		var cnt int
 		var err error
-		if _, signed, _ := intWidth(et); signed {
+		if signed {
 			cnt, err = fmt.Sscanf(g.(string), format.(string), &n)
 		} else {
 			var un uint64
